@@ -315,17 +315,23 @@ def r12_4(ctx, info) -> None:
                     bad_stores.append(s)
     ctx.check(not bad_stores, "R12.4", g, bad_stores[0] if bad_stores else "__get__",
               "access stores nothing on the descriptor or the class (values are per instance)")
-    calls = [n for n in own_nodes(g.node) if isinstance(n, ast.Call) and norm(n.func) == "_FutureCachedPropertyValue"]
+    from .common import inline_locals
+    calls = [n for n in cfg.nodes if n.kind == "call" and not n.tag
+             and ctx.pkg.resolve_expr_global(g.module, n.ast.func).node is info.node]
     ok = len(calls) == 1 and len(slot_stores) >= 1
     if ok:
-        c = calls[0]
+        cn = calls[0]
+        c = inline_locals(ctx, g, cfg, cn, cn.ast)  # ``getter = self.func`` etc. unfolded
         args = [norm(a) for a in c.args]
-        key = norm(slot_stores[0][1].slice)
-        ok = len(args) >= 3 and args[1] == inst and args[2] == key and args[0] in ("self.func", "self.__wrapped__")
-        ctx.check(ok, "R12.4", g, c, "the placeholder is created for this instance under the same name it is stored under",
+        key = norm(inline_locals(ctx, g, cfg, slot_stores[0][0], slot_stores[0][1].slice))
+        fields = {a.attr for st in own_nodes(desc.methods["__init__"].node) if isinstance(st, (ast.Assign, ast.AnnAssign))
+                  for a in ast.walk(st) if isinstance(a, ast.Attribute) and isinstance(a.ctx, ast.Store)} if "__init__" in desc.methods else set()
+        getter_ok = len(args) >= 1 and args[0].startswith("self.") and args[0][5:] in (fields | {"func", "__wrapped__"})
+        ok = len(args) >= 3 and args[1] == inst and args[2] == key and getter_ok
+        ctx.check(ok, "R12.4", g, cn.ast, "the placeholder is created for this instance under the same name it is stored under",
                   witness=f"placeholder args {args}, stored under [{key}]")
         lock_arg = c.args[3] if len(c.args) > 3 else None
-        ctx.check(isinstance(lock_arg, ast.Call) and not lock_arg.args, "R12.4", g, c,
+        ctx.check(isinstance(lock_arg, ast.Call) and not lock_arg.args, "R12.4", g, cn.ast,
                   "a new lock object is created per placeholder (per instance and computation)")
     else:
         ctx.fail("R12.4", g, "__get__", "first access stores a placeholder in instance.__dict__[name]")
